@@ -246,6 +246,46 @@ def category_sweep(ctx, db):
                 ctx.violation("category-default:%s-differs-from-default-value-and-unit" % name, dict(case, bare=repr(a)[:120], explicit=repr(b)[:120], why=why), replay=case)
 
 
+def registered_later(ctx):
+    """The forms on a database built by hand, in the orders a program may register things: units first, then questions
+    about them (which find no category yet - unit-only forms fail, as they must), then the categories; or categories
+    re-registered; every unit has a default category *now*, so every form must build, and build equal objects."""
+    from barril.units import Scalar, UnitDatabase
+
+    for order in ("questions before the categories", "categories first", "a category registered again"):
+        db = UnitDatabase()
+        with table.pushed(db):
+            db.AddUnitBase("length", "metre", "m")
+            db.AddUnit("length", "centimetre", "cm", "%f*100.0", "%f/100.0")
+            db.AddUnitBase("time", "second", "s")
+            db.AddUnit("time", "minute", "min", "%f/60.0", "%f*60.0", default_category="duration")
+            if order == "questions before the categories":
+                for u in ("m", "cm", "s", "min"):
+                    ctx.ev()
+                    try:
+                        db.GetDefaultCategory(u)
+                        Scalar(1.0, u)
+                    except Exception:
+                        pass  # no category yet: a refusal is what is due
+            db.AddCategory("length", "length")
+            db.AddCategory("time", "time")
+            db.AddCategory("duration", "time", valid_units=["min", "s"], default_unit="min")
+            if order == "a category registered again":
+                for u in ("m", "cm", "s", "min"):
+                    Scalar(1.0, u)
+                db.AddCategory("length", "length", override=True, default_unit="cm")
+                db.AddCategory("duration", "time", override=True)
+            for u, c in (("m", "length"), ("cm", "length"), ("s", "time"), ("min", "duration")):
+                for v in (1.0, -2.5):
+                    case = {"database": "hand-built", "order": order, "unit": u, "category": c, "value": v}
+                    ctx.nt(("hand-built", order, u))
+                    compare_forms(ctx, scalar_forms(u, c, v, True), case, "Scalar")
+                    fa, ga = array_forms(u, c, [v, 2.0, 3.0], "list", True)
+                    compare_forms(ctx, fa, case, "Array[list]")
+                    compare_forms(ctx, ga, case, "FixedArray[list]")
+                    compare_forms(ctx, fraction_forms(u, c, v, True), case, "FractionScalar")
+
+
 def run(ctx):
     from barril.units import AbstractValueWithQuantityObject, ObtainQuantity, Scalar
 
@@ -266,6 +306,8 @@ def run(ctx):
         category_sweep(ctx, db)
         if ctx.shard == 0:
             ctx.sample({"unit": "cP", "default category": db.GetDefaultCategory("cP"), "forms": [n for n, _ in scalar_forms("cP", "x", 1.0, True)]})
+    if ctx.shard == 0:
+        registered_later(ctx)
     ctx.inconclusive_if(probe.BOUNDARY["Scalar.__init__"] < 1000, "Scalar constructor reached fewer than 1000 times")
 
 
